@@ -145,6 +145,9 @@ type Cut struct {
 	Stop func(p Point, n ast.Node) bool
 	// Block reports that the node cannot even be entered.
 	Block func(p Point, n ast.Node) bool
+	// NoEnter reports that a block cannot be entered through an edge (used
+	// for loop heads, which carry no nodes of their own).
+	NoEnter func(b *cfg.Block) bool
 }
 
 // Reach explores forward from 'from' (exclusive of nodes before from.I) and
@@ -196,6 +199,9 @@ func (g *Graph) Reach(from Point, cut Cut, target func(p Point, n ast.Node) bool
 		}
 		for k, s := range it.b.Succs {
 			if cut.Edges[Edge{it.b, k}] {
+				continue
+			}
+			if cut.NoEnter != nil && cut.NoEnter(s) {
 				continue
 			}
 			if seen[s] {
@@ -519,6 +525,9 @@ func (g *Graph) ReachAll(from Point, cut Cut, pred func(p Point, n ast.Node) boo
 			if cut.Edges[Edge{it.b, k}] || seen[s] {
 				continue
 			}
+			if cut.NoEnter != nil && cut.NoEnter(s) {
+				continue
+			}
 			seen[s] = true
 			queue = append(queue, item{s, 0})
 		}
@@ -549,4 +558,24 @@ func unionEdges(ms ...map[Edge]bool) map[Edge]bool {
 		}
 	}
 	return out
+}
+
+// EntersBlock reports whether block blk can be entered through an edge on a
+// path starting at 'from' under the cut (Stop/Block node predicates apply).
+func (g *Graph) EntersBlock(from Point, cut Cut, blk *cfg.Block) bool {
+	hit := false
+	inner := cut
+	prev := cut.NoEnter
+	inner.NoEnter = func(b *cfg.Block) bool {
+		if prev != nil && prev(b) {
+			return true
+		}
+		if b == blk {
+			hit = true
+			return true
+		}
+		return false
+	}
+	g.ReachAll(from, inner, func(Point, ast.Node) bool { return false })
+	return hit
 }
